@@ -273,6 +273,7 @@ def run_pause(names, p):
     B = None
     try:
         B = sim.Session(S, ("127.0.0.1", 10010), wait_timeout=20)
+        S.rnd.script = [0x2000]       # B's handle is scripted: the handles A is given later stay those of the baseline run
         r = B.feed(W.register(b"ctx-new-"))
         handle = W.split_frames(b"".join(r))[0]["session"]
         rr = B.feed(W.send_rr_data(handle, W.read_tag(W.tag_path("a"), 2), b"ctx-prob"))
